@@ -350,3 +350,71 @@ pub fn chain_counts<const N: usize, const PFX: usize, const SEND: bool>(nd: &mut
     cover!(nd, last_more && !last_oneway, "last call streams");
     core::mem::forget(c);
 }
+
+/// The end of a stream leaves the connection alone: a stream owed N final replies (N = 0 or 1, fixed
+/// by the instance) is polled to its end over a connection that already holds a frame of a later
+/// exchange (arbitrary non-NUL bytes, in a buffer that has grown beyond one step). The receive
+/// function of the harness never touches the connection, so whatever happens to its cursors or
+/// bytes is the stream's own doing: nothing may.
+pub fn stream_end_keeps_frames<const N: usize>(nd: &mut Nd) {
+    let mut pre = vec![0x41u8; 2 * RSTEP];
+    let mut k = RSTEP / 2;
+    while k < RSTEP + 1 {
+        let b = nd.u8();
+        nd.assume(b != 0);
+        pre[k] = b;
+        k += 1;
+    }
+    pre[RSTEP / 2 - 1] = 0;
+    pre[RSTEP + 1] = 0;
+    pre[RSTEP + 2] = 0;
+    let mut before = [0u8; 64];
+    let mut k = 0;
+    while k < 2 * RSTEP {
+        before[k] = pre[k];
+        k += 1;
+    }
+    let (pre_rp, pre_mp) = (RSTEP + 2, RSTEP / 2);
+    let mut rc = ReadConnection::verif_from_parts(ScriptRead::idle(), pre, pre_rp, pre_mp, 3);
+    let fut_polls = Cell::new(0usize);
+    let fut_polls_ptr: *const Cell<usize> = &fut_polls;
+    let invoked = Cell::new(0usize);
+    let tag = nd.u8();
+    let f = |_conn: &mut ReadConnection<ScriptRead>| {
+        invoked.set(invoked.get() + 1);
+        Recv { pend: 0, kind: K_FINAL_NONE, tag, done: false, polls: fut_polls_ptr }
+    };
+    let mut items = 0usize;
+    let mut ended = false;
+    {
+        let stream = ReplyStream::new(&mut rc, f, N);
+        let mut stream = core::pin::pin!(stream);
+        let mut p = 0;
+        while p < N + 1 {
+            let mut cx = Context::from_waker(core::task::Waker::noop());
+            match stream.as_mut().poll_next(&mut cx) {
+                Poll::Ready(None) => ended = true,
+                Poll::Ready(Some(item)) => {
+                    items += 1;
+                    core::mem::forget(item);
+                }
+                Poll::Pending => {}
+            }
+            p += 1;
+        }
+    }
+    assert!(items == N && ended, "C06.stream_ends_only_when_all_owed_replies_arrived");
+    assert!(invoked.get() == N, "C06.no_receive_when_no_reply_is_owed");
+    let (buf, rp, mp) = rc.verif_parts();
+    let mut same = rp == pre_rp && mp == pre_mp && buf.len() == 2 * RSTEP;
+    let mut k = 0;
+    while k < 2 * RSTEP {
+        if same && buf[k] != before[k] {
+            same = false;
+        }
+        k += 1;
+    }
+    assert!(same, "C06.stream_leaves_frames_of_later_exchanges_in_place");
+    cover!(nd, ended, "stream polled to its end");
+    core::mem::forget(rc);
+}
